@@ -532,6 +532,24 @@ def specParams (rnd : Rat → Rat) (t : Tbl) (txs : List Tx) : List Row :=
 /-- every row is a Python dict: no field name twice -/
 def RowsNodup (rows : List PyDict) : Prop := ∀ r ∈ rows, (r.map (·.1)).Nodup
 
+/-- the transaction list of a run as coba produces it: the preamble is not repeated, every component
+and every triple is recorded once, evaluation records are well-formed, params keys stay distinct as
+strings and differ from the id column -/
+structure CleanRun (txs : List Tx) : Prop where
+  noT0 : ∀ m, Tx.t0 m ∉ txs
+  wf : ∀ ir ∈ t4sOf txs, WellFormed ir
+  triNodup : ((t4sOf txs).map (·.1)).Nodup
+  idNodup : ∀ t, ((paramsOf t txs).map (·.1)).Nodup
+  keysOk : ∀ t, ∀ ip ∈ paramsOf t txs, (ip.2.map (·.1.json)).Nodup ∧ idColName t ∉ ip.2.map (·.1.json)
+
+/-- the Result the statement demands for a run with preamble `info` and transactions `txs` -/
+def specResult (rnd : Rat → Rat) (info : PyDict) (txs : List Tx) : Result where
+  experiment := wireDict rnd info
+  environments := specParams rnd .E txs
+  learners := specParams rnd .L txs
+  evaluators := specParams rnd .V txs
+  interactions := specInteractions rnd txs
+
 /-- columns in which the first row decides correctly: the pinned commit's `packed_list2tuple` is right
 exactly on these -/
 def firstRowDecides : List (String × List Val) → Bool
